@@ -308,7 +308,7 @@ func (r *runner) run(deadline time.Time) (*aggregate, error) {
 						record(&violRec{Sig: "crash|" + r.groups[g] + "|" + tagOf(w.hbPath) + "|" + cls, G: g, I: i, Detail: headTail(w.stderr.String()), N: 1, Crash: true})
 					}
 					queue = append([]job{{g, i + 1}}, queue...)
-					if agg.crashes > 60 {
+					if agg.crashes > r.maxDeaths() {
 						// stop exploring: what was recorded so far is still reported (crashes are violations)
 						agg.complete = false
 						agg.aborted = fmt.Sprintf("exploration stopped after %d worker deaths", agg.crashes)
@@ -477,6 +477,14 @@ func (r *runner) runOne(g int, i int64) (sigs []string, desc json.RawMessage, cr
 // hangConfirmSecs is the limit of the isolated confirmation run: 4x the watchdog, unless the check
 // implements HangConfirmer (a check whose known findings include genuine infinite loops can bound the
 // cost of re-confirming them on every run).
+// maxDeaths: worker deaths (crashes / hangs) after which exploration stops (what was found is still reported).
+func (r *runner) maxDeaths() int {
+	if d, ok := r.c.(DeathCapper); ok {
+		return d.MaxWorkerDeaths()
+	}
+	return 60
+}
+
 func (r *runner) hangConfirmSecs() int {
 	if h, ok := r.c.(HangConfirmer); ok {
 		if s := h.HangConfirmSeconds(); s > 0 {
